@@ -11,3 +11,5 @@ import Helm.Props.C10
 #print axioms Helm.Props.C10.get_undecodable_is_error
 #print axioms Helm.Props.C10.counterexample_memory_dotv
 #print axioms Helm.Props.C10.mem_create_get
+#print axioms Helm.Props.C10.memory_step
+#print axioms Helm.Props.C10.memory_refines_map
